@@ -98,12 +98,12 @@ type ReqObs struct {
 
 // ConnObs is the backend-side record of one connection the proxy opened to a fake backend.
 type ConnObs struct {
-	Server string `json:"server"`
-	N      int    `json:"n"`
-	Mode   string `json:"mode"`
-	Req    int    `json:"req"` // request id from the dial context; -1: no id (initial join or a fallback the proxy started itself)
+	Server                                                             string `json:"server"`
+	N                                                                  int    `json:"n"`
+	Mode                                                               string `json:"mode"`
+	Req                                                                int    `json:"req"` // request id from the dial context; -1: no id (initial join or a fallback the proxy started itself)
 	DialAt, LoginAt, AnswerAt, JoinSendAt, FailAt, EOFAt, ProxyCloseAt int64
-	Closed bool `json:"closed"`
+	Closed                                                             bool `json:"closed"`
 }
 
 // ConnState is the liveness of a backend connection inside a snapshot.
@@ -124,11 +124,11 @@ type Snap struct {
 	Cur         string              `json:"current_server"`
 	Lists       map[string][]string `json:"lists"` // server -> names in RegisteredServer.Players()
 	Conns       []ConnState         `json:"conns"`
-	Settled     bool                `json:"settled"`        // the quiescence predicate held
-	StableFor   string              `json:"stable_for"`     // how long the state had been unchanged when the watchdog fired
-	Unstable    bool                `json:"unstable"`       // still changing at the watchdog: never a verdict
-	Why         string              `json:"why,omitempty"`  // which clause of the predicate failed
-	LimboOK     bool                `json:"limbo_allowed"`  // see oracle: latitude for plain Connect after a configuration-phase kick
+	Settled     bool                `json:"settled"`       // the quiescence predicate held
+	StableFor   string              `json:"stable_for"`    // how long the state had been unchanged when the watchdog fired
+	Unstable    bool                `json:"unstable"`      // still changing at the watchdog: never a verdict
+	Why         string              `json:"why,omitempty"` // which clause of the predicate failed
+	LimboOK     bool                `json:"limbo_allowed"` // see oracle: latitude for plain Connect after a configuration-phase kick
 	Pending     []string            `json:"pending,omitempty"`
 }
 
@@ -168,7 +168,7 @@ type RoundObs struct {
 	Reqs      []ReqObs `json:"reqs"`
 	Before    Snap     `json:"before"`
 	After     Snap     `json:"after"`
-	KeepAlive string   `json:"keepalive"` // ok, no-echo, n/a, state-changed
+	KeepAlive string   `json:"keepalive"`          // ok, no-echo, n/a, state-changed
 	Recovery  *ReqObs  `json:"recovery,omitempty"` // the harness acting as the caller responsible for error handling (see oracle)
 	AfterRec  *Snap    `json:"after_recovery,omitempty"`
 }
